@@ -90,6 +90,10 @@ def gen_case(rnd, deep=False):
     runs = [{"at": 0}]
     if rnd.random() < 0.5:
         runs.append({"at": rnd.choice([0, 0.25, 1, 8])})
+    # transient factory failure followed by later, strictly sequential runs on the same instance
+    if not cyclic and rnd.random() < 0.2:
+        rnd.choice(nodes)["fail_first"] = 1
+        runs = [{"at": 0}, {"at": 20}, {"at": 40}]
     return {"nodes": nodes, "steps": steps, "sends": sends, "runs": runs, "fresh_descriptors": rnd.random() < 0.5}
 
 
@@ -261,7 +265,17 @@ def run_case(case, acc: Acc):
                     continue
                 c = creator[id(o)]
                 if c["task"] is not t:
-                    viol.append(({"mech": "noncached_instance_shared_across_step_invocations"},
+                    # "concurrent": from the creation to the consumer's resolution some resolution scope was open all the time
+                    # (the manager's shared depth never returned to 0, which is the known concurrency defect); False means the
+                    # manager was completely idle in between and STILL handed out the old object
+                    wt = next((w for w in rec.windows if w["task"] is t), None)
+                    lo, hi = c["seq"], (wt["seq0"] if wt else c["seq"])
+                    cover = lo
+                    for w in sorted(rec.windows, key=lambda w: w["seq0"]):
+                        if w["seq0"] <= cover and w.get("seq1", 1e18) > cover:
+                            cover = w.get("seq1", 1e18)
+                    conc = cover >= hi
+                    viol.append(({"mech": "noncached_instance_shared_across_step_invocations", "concurrent": conc},
                                  f"non-cached resource {name}: object {o!r} created at vt={c['vt0']} for one step invocation "
                                  f"was injected into another invocation: {where}"))
             per_task = {}
@@ -302,6 +316,8 @@ def run_case(case, acc: Acc):
                              f"({rec.overlaps} step invocation(s) started resolving while another invocation's resolution was "
                              f"still awaiting a factory; steps {step_params}, workers {[s['workers'] for s in case['steps']]})"
                              + ("" if ov else " [no overlapping resolution observed]")))
+            elif kind != "ok" and "factory boom" in str(detail):
+                acc.hit("run_failed_by_injected_factory_error")
             elif kind != "ok":
                 viol.append(({"mech": "run_failed_unexpectedly", "exc": kind}, f"run {idx} failed with {kind}: {detail[:300]}"))
     seen_sig = set()
